@@ -77,7 +77,25 @@ def replay (j : Json) : R Verdict := do
         if mp == .zero && out != cross then pf := ("C13", s!"op {i}: mutation with probability 0 changed its input") :: pf
         if !(resizeLocal mp s cross out) then
           pf := ("C13", s!"op {i}: a resizable map was not resized by exactly one fresh/removed key (mutation probability class {repr mp})") :: pf
+    -- adaptive parameters of in-run records (C14): probabilities in [0,1], scale positive and finite
+    if (fieldD op "inRun").getBool?.toOption == some true then
+      let one : F64 := .fin 4607182418800017408
+      match (fieldD op "probs").getArr?.toOption with
+      | some ps =>
+        for pj in ps do
+          match asF64 pj with
+          | .ok p => if !(F64.le (.fin 0) p && F64.le p one) then
+              pf := ("C14", s!"op {i}: an adaptive probability is outside [0,1]: {repr p}") :: pf
+          | .error _ => pure ()
+      | none => pure ()
+      match asF64 (fieldD op "mscale") with
+      | .ok sc => if !(sc.isFinite && F64.lt (.fin 0) sc) then
+          pf := ("C14", s!"op {i}: the adaptive mutation scale is not positive and finite: {repr sc}") :: pf
+      | .error _ => pure ()
     i := i + 1
+  match (fieldD j "runPanic").getStr?.toOption with
+  | some m => pf := ("C15", s!"the algorithm core panicked: {m}") :: ("C01", s!"the algorithm core panicked: {m}") :: pf
+  | none => pure ()
   let kind := if !pf.isEmpty then "PROPFAIL" else if dis.isSome then "DISAGREE" else "ok"
   let what := match pf.reverse, dis with | (_, w) :: _, _ => w | [], some d => d | [], none => ""
   return { case, kind, props := (pf.map (·.1)).eraseDups, what, tags, size := n,
